@@ -479,6 +479,17 @@ def gen_cat_permuted(rng: Rng):
         yield dict(kind="cat", base=base, how="permuted", tree=tree, perm=perm)
 
 
+def _iter_fixed_cases():
+    """In every run: iteration over every iterable class, with the pieces kept."""
+    yield dict(kind="iter", comp=["D", [3, 14, 15, 9]])
+    yield dict(kind="iter", comp=["D", [26]])
+    yield dict(kind="iter", comp=["B", [5, 35, 8]])
+    yield dict(kind="iter", comp=["I", [[0, 10], [1, 11], [2, 12]]])
+    yield dict(kind="iter", comp=["I", [[4, 10], [2, 11], [7, 12]]])
+    yield dict(kind="iter", obj=["M", [["D", [1, 2, 3]], ["I", [[0, 10], [1, 11], [2, 12]]]]])
+    yield dict(kind="iter", obj=["M", [["D", [1, 2, 3]], ["D", [4, 5, 6]]]])
+
+
 def _vorder_cases():
     """In every run: irregular pieces whose argvals and values dictionaries list the same labels in DIFFERENT orders
     (user-built, or an arithmetic result of such an object), through selection, iteration and concatenation."""
@@ -537,6 +548,8 @@ def _fixed_fc_cases():
     for data in ("I", "MI"):
         for ix in (["s", 1, None, None], ["s", None, -1, None], ["s", 1, -1, None], ["a", [2, 1]], ["i", 1]):
             yield dict(kind="fc", data=data, n=4, seed=20240 + len(data), ix=ix)
+    for ix in (["s", 1, None, None], ["i", 1], ["a", [2, 0]], ["s", None, None, None]):
+        yield dict(kind="fc", data="B", n=4, seed=20260, ix=ix)
     for data in ("Ir", "MIr", "In"):
         for ix in (["s", None, None, None], ["s", 1, None, None], ["a", [2, 0, 1]]):
             yield dict(kind="fc", data=data, n=4, seed=20250 + len(data), ix=ix)
@@ -624,6 +637,7 @@ def _gen_cases(rng: Rng, tier):
     for _ in range(400 if big else 50):
         yield from gen_cat_permuted(rng)
     yield from _vorder_cases()
+    yield from _iter_fixed_cases()
     if big:
         for n in range(3, 7):
             for comp in _compositions(n):
@@ -712,6 +726,24 @@ def run_impl(case):
                 except StopIteration:
                     pass
         out["live1"], out["live2"] = l1, l2
+        # pieces KEPT across the iteration steps: distinct objects, piece i still holds observation i after the loop
+        kept = list(x)
+        out["kept"] = [rd(o)[0] for o in kept]
+        out["kept_distinct"] = len({id(o) for o in kept}) == len(kept)
+        pairs_ok = True
+        prev = None
+        seen = []
+        for cur in x:
+            if prev is not None and rd(prev)[0] != seen[-1]:
+                pairs_ok = False
+            seen.append(rd(cur)[0])
+            prev = cur
+        out["prev_ok"] = pairs_ok
+        out["zip_kept"] = [[rd(a)[0], rd(b)[0]] for a, b in list(zip(x, x))]
+        if kept:
+            back, err = _outcome(lambda: type(kept[0]).concatenate(*kept))
+            out["concat_back"] = err if err else (read_obj(back)[0] if multi else read_comp(back)[0])
+            out["whole"] = read_obj(x)[0] if multi else read_comp(x)[0]
         return out
     if kind == "cat":
         res, err = _outcome(lambda: _eval_tree(case["tree"]))
@@ -762,7 +794,10 @@ def _fc_data(case):
     def basis():
         from FDApy.representation.basis import Basis
 
-        b = Basis("fourier", n_functions=3, argvals=A.DenseArgvals({"input_dim_0": np.linspace(0, 1, 11)}))
+        # a basis / grid on which the integration rules give different Gram matrices (Fourier on a uniform grid does not)
+        name = rng.choice(["legendre", "legendre", "fourier"])
+        t = np.linspace(0, 1, 11) if name == "legendre" and rng.random() < 0.5 else np.array([0, 0.05, 0.2, 0.3, 0.45, 0.5, 0.7, 0.8, 0.9, 0.95, 1.0])
+        b = Basis(name, n_functions=3, argvals=A.DenseArgvals({"input_dim_0": t}))
         return FD.BasisFunctionalData(b, np.array([[float(rng.dyadic(-2, 2, 4)) for _ in range(3)] for _ in range(n)]))
 
     def irreg2():
@@ -820,7 +855,17 @@ def twin_of(x):
         return FD.IrregularFunctionalData(A.IrregularArgvals(a), V.IrregularValues(v))
     if isinstance(x, FD.DenseFunctionalData):
         return FD.DenseFunctionalData(A.DenseArgvals({d: np.array(t) for d, t in x.argvals.items()}), V.DenseValues(np.array(x.values)))
-    return FD.BasisFunctionalData(x.basis, np.array(x.coefficients))
+    from FDApy.representation.basis import Basis
+
+    b = x.basis
+    try:    # a freshly built basis object too: nothing the parent may have cached on its basis is inherited
+        fresh = Basis(name=b.name, n_functions=b.n_functions, argvals=A.DenseArgvals({k: np.array(t) for k, t in b.argvals.items()}),
+                      is_normalized=getattr(b, "is_normalized", False), add_intercept=getattr(b, "add_intercept", True))
+        if np.shape(fresh.values) != np.shape(b.values) or not np.array_equal(np.asarray(fresh.values), np.asarray(b.values)):
+            fresh = b
+    except Exception:  # noqa: BLE001
+        fresh = b
+    return FD.BasisFunctionalData(fresh, np.array(x.coefficients))
 
 
 def summarise(r):
@@ -940,6 +985,19 @@ def run_fc(case):
     if err is not None:
         return dict(select_err=err, results={})
     tw = twin_of(sub)
+    # the PARENT and a sibling are analysed first with OTHER options: nothing of that may leak into the subset's results
+    # under the default options (objects shared between parent and subsets: basis, sampling points, arrays)
+    primed = []
+    for name, f in (("norm(simpson)", lambda o: o.norm(method_integration="simpson")),
+                    ("norm(squared, stand)", lambda o: o.norm(squared=True, use_argvals_stand=True)),
+                    ("inner_product(simpson)", lambda o: o.inner_product(method_integration="simpson")),
+                    ("normalize(simpson)", lambda o: o.normalize(method_integration="simpson")),
+                    ("rescale(simpson)", lambda o: o.rescale(method_integration="simpson"))):
+        if case["data"] in ("I", "Ir", "In", "I2", "MI", "MIr") and name.startswith(("inner_product", "normalize", "rescale")):
+            continue      # slow on irregular data; their norm goes through the same options
+        _, e1 = _outcome(lambda: f(x))
+        _, e2 = _outcome(lambda: f(x[::-1]))
+        primed.append(name + (":" + str(e1) if e1 else ""))
     # read-only methods on a subset must not change the parent nor its other subsets (arrays are shared between them)
     n_par = x.n_obs
     sib_ix = slice(None, None, -1) if n_par < 2 else slice(0, max(1, n_par - 1))
@@ -1204,6 +1262,29 @@ def oracle(case, impl):
             if got2 != P:
                 vs.append(dict(clause="iter_overlap", entry=entry, causes=[], msg=f"{name} over {c} yielded {got2}; a single iteration yields {P}"))
                 break
+        if "kept" in impl:
+            if impl["kept"] != P or [a for a, _ in impl["zip_kept"]] != P or [b for _, b in impl["zip_kept"]] != P:
+                vs.append(dict(clause="iter_kept", entry=entry, causes=["piece_overwritten"],
+                               msg=f"the pieces of list(x) over {c} read {impl['kept']} after the loop; during the loop they read {P}"))
+            if not impl["kept_distinct"]:
+                vs.append(dict(clause="iter_kept", entry=entry, causes=["same_object"], msg=f"list(x) over {c} holds the same object several times"))
+            if not impl["prev_ok"]:
+                vs.append(dict(clause="iter_kept", entry=entry, causes=["previous_piece_changed"], msg=f"iterating over {c}: the previous piece changed when the next one was produced"))
+            cb = impl.get("concat_back")
+            if cb is not None and cb != "NotImplementedError":
+                whole = impl["whole"]
+                has_irreg = "I:" in whole        # label collisions of the open finding may lose observations there
+                is_err = ":" not in cb
+                if is_err:
+                    if not has_irreg:
+                        vs.append(dict(clause="iter_kept", entry=entry, causes=["concat_of_pieces"], msg=f"concatenate(*list(x)) over {c} raised {cb}"))
+                else:
+                    wrap = lambda t: t if t.startswith(("U ", "M ")) else "U " + t  # noqa: E731
+                    got_ids, want_ids = _ids_by_position(wrap(cb)), _ids_by_position(wrap(whole))
+                    lost = [sorted(a) for a in got_ids] != [sorted(b) for b in want_ids]
+                    if got_ids != want_ids and not (lost and has_irreg):
+                        vs.append(dict(clause="iter_kept", entry=entry, causes=["concat_of_pieces"],
+                                       msg=f"concatenate(*list(x)) over {c} holds the observations {got_ids}; the dataset holds {want_ids}"))
         if any(inner != P for inner in impl["nested_inner"]) or len(impl["nested_inner"]) != len(P):
             vs.append(dict(clause="iter_overlap", entry=entry, causes=[], msg=f"inner loops of a nested loop over {c} yielded {impl['nested_inner']}; a single iteration yields {P}"))
         if impl["again"] != impl["pieces"]:
